@@ -13,6 +13,20 @@ pub mod c21;
 pub mod c22;
 pub mod c24;
 pub mod c32;
+pub mod c03;
+pub mod c04;
+pub mod c06;
+pub mod c08;
+pub mod c09;
+pub mod c10;
+pub mod c23;
+pub mod c05;
+pub mod c07;
+pub mod c14;
+pub mod c15;
+pub mod c17;
+pub mod c18;
+pub mod c20;
 pub mod util;
 
 pub type RunFn = fn(&mut Ctx);
@@ -29,6 +43,20 @@ pub const REGISTRY: &[(&str, RunFn, ReplayFn)] = &[
     ("C22", c22::run, c22::replay),
     ("C24", c24::run, c24::replay),
     ("C32", c32::run, c32::replay),
+    ("C03", c03::run, c03::replay),
+    ("C04", c04::run, c04::replay),
+    ("C06", c06::run, c06::replay),
+    ("C08", c08::run, c08::replay),
+    ("C09", c09::run, c09::replay),
+    ("C10", c10::run, c10::replay),
+    ("C23", c23::run, c23::replay),
+    ("C05", c05::run, c05::replay),
+    ("C07", c07::run, c07::replay),
+    ("C14", c14::run, c14::replay),
+    ("C15", c15::run, c15::replay),
+    ("C17", c17::run, c17::replay),
+    ("C18", c18::run, c18::replay),
+    ("C20", c20::run, c20::replay),
 ];
 
 pub fn find(id: &str) -> Option<(RunFn, ReplayFn)> {
